@@ -318,6 +318,13 @@ class Units:
             return CONST
         elif isinstance(fn, ast.Name) and fn.id in ('float', 'abs') and e.args:
             return self.ev(e.args[0])
+        elif isinstance(fn, ast.Name) and fn.id in ('max', 'min') and fn.id not in self.env and e.args:
+            out = CONST if len(e.args) > 1 else self.ev(e.args[0])
+            if len(e.args) > 1:
+                out = self.ev(e.args[0])
+                for a in e.args[1:]:
+                    out = self.same(out, self.ev(a), e, f'{fn.id}() operands') if out != CONST or True else out
+            return out
         elif isinstance(fn, ast.Name) and fn.id in self.env and e.args:
             return self.ev(e.args[0])            # precision(x): scalar cast by a dtype passed as parameter
         elif isinstance(fn, ast.Name) and self.prog is not None and self.depth < 2:
@@ -360,6 +367,12 @@ class Units:
         if name in ('abs', 'absolute', 'copy', 'array', 'asarray', 'astype', 'swapaxes', 'transpose', 'reshape', 'squeeze', 'negative', 'nan_to_num', 'real', 'moveaxis',
                     'max', 'min', 'nanmax', 'nanmin', 'flip', 'roll', 'ascontiguousarray', 'expand_dims', 'diag', 'trace', 'cumsum'):
             return a0
+        if name in ('diff', 'spacing', 'ptp', 'sort', 'unique', 'ravel', 'flatten', 'nextafter') :
+            return a0
+        if name in ('maximum', 'minimum', 'fmax', 'fmin', 'linspace') and len(args) >= 2:
+            return self.same(args[0], args[1], e, f'{name} operands')
+        if name in ('any', 'all'):
+            return CONST
         if name == 'where' and len(args) == 3:
             return self.same(args[1], args[2], e, 'np.where branches')
         if name in ('zeros', 'empty', 'ones', 'zeros_like', 'empty_like', 'arange', 'eye', 'count_nonzero', 'isinf', 'isnan', 'isfinite', 'argmax', 'argmin', 'log', 'log2', 'exp'):
